@@ -20,12 +20,30 @@ def describe(c):
             'sizing_mode': 'InherentSize' if c[53] else 'ContentSize'}
 
 
+def eval_model(cases):
+    """run_model, retried once with fewer parallel coqc processes when a shard dies without a Coq error message
+    (observed on a heavily loaded machine: a killed coqc, not a property of the model)"""
+    try:
+        return run_model('C19', 'From TV Require Import Model.LeafRun.', 'run_case', cases, scope='Z', elem='list Z')
+    except RuntimeError as ex:
+        if 'Error' in str(ex) or 'timed out' in str(ex):
+            raise
+        log('[C19] model evaluation died without an error message (%s); retrying with 6 shards' % str(ex)[:80])
+        return run_model('C19r', 'From TV Require Import Model.LeafRun.', 'run_case', cases, scope='Z', elem='list Z', shards=6)
+
+
 def run(rep, tier, seed, replay=None):
-    res, changed = proof_stage(rep, 'C19', extra_trusted=[
+    trusted = [
         'hand models Model/Leaf.v, Model/Root.v, Model/Common.v (generic lifts): tied to the source by K and fingerprints only',
         'a fresh TaffyTree has an empty layout cache (the cache is not modelled here: property C02)',
         'calc() lengths are out of scope; the high-level API resolves them to 0',
-        'theorems are over exact rationals (XQ); the F32 instance is only run, its rounding is not analysed'])
+        'theorems are over exact rationals (XQ); the F32 instance is only run, its rounding is not analysed']
+    res, changed = proof_stage(rep, 'C19', extra_trusted=trusted)
+    if not res['compiled'] and 'Error' not in res.get('output', ''):
+        # a build that stops without a Coq error (killed compiler on a loaded machine) says nothing about the proofs: once more
+        log('[C19] proof build stopped without a Coq error; retrying once')
+        rep.broken = [b for b in rep.broken if b['kind'] != 'proof']
+        res, changed = proof_stage(rep, 'C19', extra_trusted=trusted)
     rc, out, binp, dt = build_harness('release')
     if rc != 0:
         rep.add_broken('build', 'harness', out[-1500:])
@@ -52,7 +70,7 @@ def run(rep, tier, seed, replay=None):
             rcm, outm, _ = coq_make(['Model/LeafRun.vo'])
         if rcm != 0:
             raise RuntimeError(outm[-1500:])
-        model = run_model('C19', 'From TV Require Import Model.LeafRun.', 'run_case', cases, scope='Z', elem='list Z')
+        model = eval_model(cases)
         bad = diff_results(rep, 'root_leaf / compute_leaf_layout over F32 vs the implementation', cases, impl, model)
     except RuntimeError as ex:
         rep.add_broken('correspondence', 'model evaluation', str(ex)[-1500:])
@@ -104,7 +122,7 @@ def run(rep, tier, seed, replay=None):
                 fails.append((p[0][5:].strip(), None, [int(x) for x in p[1].split()]))
             elif l.startswith('FAIL '):
                 p = l.split('::')
-                fails.append((p[0][5:].strip(), [int(x) for x in p[1].split()]))
+                fails.append((p[0][5:].strip().split(' ', 1)[1], [int(x) for x in p[1].split()]))
             elif l.startswith('RATIO '):
                 p = l.split('::')
                 ratio.append((p[0][6:].strip(), [int(x) for x in p[1].split()]))
